@@ -585,6 +585,32 @@ def _stmt_of(fn, node):
 def _default_prop(fshort: str) -> str:
     """Property that owns a *new* site (not in the table) by the module it appears in."""
     head = fshort.split(".")[0]
+    meth = fshort.split(".")[-1]
+    if head == "CFG":
+        if meth in ("_decompose_productions", "_get_productions_with_only_single_terminals", "_get_next_free_variable",
+                    "to_normal_form", "remove_useless_symbols", "remove_epsilon", "eliminate_unit_productions"):
+            return "C09"
+        if meth.startswith("intersection") or meth.startswith("_intersection") or meth == "_get_all_bodies":
+            return "C11"
+        if meth == "to_pda":
+            return "C13"
+        if meth in ("to_text", "from_text", "_read_line"):
+            return "C20"
+        return "C10"
+    if head == "PDA" and meth in ("intersection",):
+        return "C11"
+    if head == "PDA" and meth in ("to_networkx", "from_networkx"):
+        return "C20"
+    if head == "FST" and meth.startswith("_extract") or fshort == "FST.intersection":
+        return "C17"
+    if head == "FST" and meth in ("to_networkx", "from_networkx"):
+        return "C20"
+    if head == "EpsilonNFA" and meth in ("to_regex", "_remove_state", "_create_or_transitions", "_get_regex_simple",
+                                         "_get_bi_transitions", "_remove_all_basic_states"):
+        return "C06"
+    if head == "EpsilonNFA" and meth in ("_to_deterministic_internal", "to_deterministic", "remove_epsilon_transitions",
+                                         "copy", "minimize"):
+        return "C01"
     return {"EpsilonNFA": "C03", "epsilon_nfa": "C01", "DeterministicFiniteAutomaton": "C01",
             "NondeterministicFiniteAutomaton": "C01", "finite_automaton": "C20", "FiniteAutomaton": "C20",
             "CFG": "C10", "PDA": "C13", "pda": "C13", "_PDAStateConverter": "C11", "CFGVariableConverter": "C13",
